@@ -159,10 +159,16 @@ var vfDefs = func(fkMode byte) []*vfTabDef {
 			{mode: 'k', cols: []string{"k"}}, {mode: 'i', cols: []string{"a"}}, {mode: 'u', cols: []string{"u"}}}},
 		{name: "t2", cols: []string{"k2", "k", "d", "v"}, idxs: []vfIdxDef{
 			{mode: 'k', cols: []string{"k2"}},
-			{mode: 'i', cols: []string{"k"}, fkTable: "t1", fkCols: []string{"k"}, fkMode: fkMode}}},
+			{mode: 'i', cols: []string{"k"}, fkTable: "t1", fkCols: []string{"k"}, fkMode: fkMode},
+			{mode: 'k', cols: []string{"k", "k2"}}}},
 		{name: "t3", cols: []string{"x", "v"}, idxs: []vfIdxDef{{mode: 'k', cols: []string{}}}},
 		{name: "t4", cols: []string{"a", "b", "v"}, idxs: []vfIdxDef{
 			{mode: 'k', cols: []string{"a", "b"}}, {mode: 'i', cols: []string{"b"}}}},
+		// third level: t5 refers to t2's composite key (k,k2), always blocking, so that a cascade from t1
+		// through t2 can be refused part-way (the whole transaction must then abort)
+		{name: "t5", cols: []string{"x", "fk", "fk2", "v"}, idxs: []vfIdxDef{
+			{mode: 'k', cols: []string{"x"}},
+			{mode: 'i', cols: []string{"fk", "fk2"}, fkTable: "t2", fkCols: []string{"k", "k2"}, fkMode: schema.Block}}},
 	}
 }
 
@@ -518,6 +524,12 @@ func (s *vfSim) genRow(r *rand.Rand, table, payload string) vfRow {
 		return vfRow{vfPackInt(r.IntN(k + k/2)), fk, vfPackInt(r.IntN(3)), vfPackStr(payload)}
 	case "t3":
 		return vfRow{vfPackInt(r.IntN(5)), vfPackStr(payload)}
+	case "t5":
+		fk, fk2 := "", ""
+		if r.IntN(6) != 0 {
+			fk, fk2 = vfPackInt(r.IntN(k)), vfPackInt(r.IntN(k+k/2))
+		}
+		return vfRow{vfPackInt(r.IntN(k)), fk, fk2, vfPackStr(payload)}
 	default: // t4: strings with embedded zero bytes and empty fields in a composite key
 		pool := []string{"", "a", "a\x00", "a\x00\x00b", "b", "\x00", "c"}
 		return vfRow{vfPackStr(pool[r.IntN(len(pool))]), vfPackStr(pool[r.IntN(len(pool))]), vfPackStr(payload)}
@@ -525,16 +537,23 @@ func (s *vfSim) genRow(r *rand.Rand, table, payload string) vfRow {
 }
 
 func (s *vfSim) pickTable(r *rand.Rand) string {
-	switch n := r.IntN(10); {
-	case n < 4:
+	switch n := r.IntN(100); {
+	case n < 34:
 		return "t1"
-	case n < 7:
+	case n < 60:
 		return "t2"
-	case n < 8:
+	case n < 74:
+		if s.p.prop == "C44" {
+			return "t2"
+		}
+		return "t5"
+	case n < 81:
 		return "t3"
 	}
 	return "t4"
 }
+
+func (s *vfSim) rng5(r *rand.Rand) bool { return r.IntN(2) == 0 }
 
 func (s *vfSim) maybeYield(r *rand.Rand) {
 	if s.p.yieldPct > 0 && r.IntN(100) < s.p.yieldPct {
@@ -594,6 +613,17 @@ func (s *vfSim) runUpdateTxn(r *rand.Rand, worker, seq int) {
 			s.scan(t, ut, table, idx, org, end, r.IntN(3) == 0, limit)
 		case kind < 65: // insert
 			row := s.genRow(r, table, payload)
+			if table == "t5" && r.IntN(4) != 0 {
+				// refer to an existing t2 row (seen through a recorded scan) so the third level gets populated
+				sc := s.scan(t, ut, "t2", 0, ixkey.Min, ixkey.Max, r.IntN(2) == 0, 1+r.IntN(3))
+				if len(sc.Rows) > 0 && sc.Err == "" {
+					src := sc.Rows[r.IntN(len(sc.Rows))]
+					row[1], row[2] = src[1], src[0]
+				}
+				if ut.ct.Failed() {
+					continue
+				}
+			}
 			op := &vfOp{Kind: "output", Table: table, Row: row}
 			s.do(t, op, func() { ut.Output(nil, table, vfRec(row)) })
 			if op.Err == "" {
@@ -1203,15 +1233,27 @@ func (s *vfSim) replay(t *vfTxn, m *vfModel, mode string) {
 			if !vfIn(res, op.Err) {
 				mism("output-outcome-mismatch", res)
 			}
-		case "update":
-			res := m.update(op.Table, op.PK, op.Row)
-			if !vfIn(res, op.Err) {
-				mism("update-outcome-mismatch", res)
+		case "update", "delete":
+			var res []string
+			if op.Kind == "update" {
+				res = m.update(op.Table, op.PK, op.Row)
+			} else {
+				res = m.delete(op.Table, op.PK)
 			}
-		case "delete":
-			res := m.delete(op.Table, op.PK)
+			if res[0] == vfAbort {
+				// refused inside a cascade: the operation reports a foreign key error and the transaction must be dead
+				s.rep.Count("cascade_refused_part_way", 1)
+				s.rep.Seen("cascade_refused_outcomes", fmt.Sprintf("err=%s committed=%v outcome=%s", op.Err, t.Committed, vk.Trunc(t.Outcome, 60)))
+				if op.Err != vfFkBlock && op.Err != vfDead {
+					mism(op.Kind+"-outcome-mismatch", res)
+				} else if t.Committed {
+					s.diverged = true
+					s.violate("C03 C08 C01", "committed-after-cascade-was-refused", key, map[string]any{"op": op.String(), "txn": t.dump()})
+				}
+				return
+			}
 			if !vfIn(res, op.Err) {
-				mism("delete-outcome-mismatch", res)
+				mism(op.Kind+"-outcome-mismatch", res)
 			}
 		}
 	}
